@@ -19,6 +19,8 @@ import warnings
 
 import numpy as np
 
+from common import relayout
+
 from tlc import run_tlc, read_json
 
 INVS = ['BlocksPartition', 'InBounds', 'NoDoubleWrite', 'StartsOK', 'RefinesD']
@@ -149,6 +151,8 @@ def run(chk):
         for (coord, dt, hw, so) in vs:
             pos, w, box = make_input(xs, npart, R, coord, dt, wdtype=[None, np.float64, np.float32][ci % 3])
             for t in (threads if full else [threads[(ci + coord) % len(threads)], 16 if ci % 2 else 1]):
+                lay = (ci + t) % 3            # memory layout of the caller's arrays: contiguous / non-contiguous view / Fortran order
+                pos, w = relayout(pos, lay), relayout(w, lay + 1)
                 res, bad = call(partition_parallel, pos, w if hw else None, npart, box, coord, t, so)
                 bad = bad or judge(pos, w if hw else None, box, npart, coord, so, res, expect_starts=c['starts'])
                 if not bad:
@@ -192,6 +196,43 @@ def run(chk):
                           dict(xs=xs.tolist(), np=npart, R=R, coord=coord, dtype=np.dtype(dt).name, wdtype=w.dtype.name, weights=hw, sort=so, nthread=t, dyadic=dyadic))
     chk.add_cases(nt, traces=nt)
     chk.part('twin_random', runs=nt)
+    # ---- very many stripes (more than 2**15 and 2**16: the stripe keys must not be narrowed), judged with a vectorised form of the same rule
+    nbig = 0
+    for npart in ((40000, 70000) if chk.quick else (32768, 32769, 40000, 65536, 70000, 200000)):
+        for rep in range(2):
+            n = 5000
+            R = 2
+            xs = rng.integers(0, npart * R + 1, n)
+            xs[:8] = [0, npart * R, npart * R - 1, 32768 * R, 32767 * R, 65536 * R % (npart * R + 1), (npart - 1) * R, R]
+            coord = rep
+            dt = np.float64                      # float32 cannot hold these lattice coordinates exactly
+            pos, w, box = make_input(xs, npart, R, coord, dt)
+            t = [3, 16][rep]
+            res, bad = call(partition_parallel, pos, w, npart, box, coord, t, bool(rep))
+            nbig += 1
+            if not bad:
+                psort, starts, wsort = res
+                starts = np.asarray(starts)
+                if starts.shape != (npart + 1,) or starts[0] != 0 or starts[-1] != n or np.any(np.diff(starts) < 0):
+                    bad = 'starts is not a non-decreasing sequence from 0 to N'
+                else:
+                    other = [j for j in range(3) if j != coord][0]
+                    tag = np.rint((psort[:, other] / 0.25 - (other + 1)) / 3).astype(np.int64)
+                    if sorted(tag.tolist()) != list(range(n)) or not np.array_equal(psort, pos[tag]) or not np.array_equal(wsort, w[tag]):
+                        bad = 'output rows are not a permutation of the input rows (or weights misaligned)'
+                    else:
+                        stripe_of_row = np.searchsorted(starts, np.arange(n), side='right') - 1
+                        want = np.minimum(np.floor(psort[:, coord] * npart / box), npart - 1).astype(np.int64)
+                        if not np.array_equal(stripe_of_row, want):
+                            i = int(np.argmax(stripe_of_row != want))
+                            bad = f'stripe membership: x={float(psort[i, coord])} (stripe {int(want[i])}) found in stripe {int(stripe_of_row[i])}'
+                        elif bool(rep) and np.any((np.diff(psort[:, coord]) < 0) & (np.diff(stripe_of_row) == 0)):
+                            bad = 'a stripe is not sorted on the partition coordinate'
+            if bad:
+                chk.violation(key_of(bad, n, t) + '-many-stripes', f'random N={n} npartition={npart} coord={coord} nthread={t} sort={bool(rep)}: {bad}',
+                              dict(xs=xs.tolist(), np=npart, R=R, coord=coord, dtype='float64', wdtype='float64', weights=True, sort=bool(rep), nthread=t, dyadic=True))
+    chk.add_cases(nbig, traces=nbig)
+    chk.part('many_stripes', runs=nbig)
     # ---- schedule replay on the real source
     import sched
     share = ['keys', 'counts', 'pointers', 'psort', 'wsort', 'starts']
